@@ -226,7 +226,8 @@ fn check_model(name: &str, path: &std::path::Path, eru: EnergyRateUnit, tier: Ti
         }
     };
     // (speed lo, hi, bins, grade lo, hi, bins)
-    let grids: Vec<(f64, f64, usize, f64, f64, usize)> = tier.pick(vec![(0.0, 100.0, 101, -0.2, 0.2, 41), (10.0, 70.0, 5, -0.1, 0.1, 3)], vec![(0.0, 100.0, 101, -0.2, 0.2, 41), (10.0, 70.0, 5, -0.1, 0.1, 3), (5.0, 85.0, 9, -0.15, 0.05, 6), (20.0, 21.0, 2, 0.0, 0.01, 2)]);
+    // (0..160, 101) and (-0.2..0.2, 21) are grids whose accumulated last knot falls a few ulp short of the nominal bound
+        let grids: Vec<(f64, f64, usize, f64, f64, usize)> = tier.pick(vec![(0.0, 100.0, 101, -0.2, 0.2, 41), (10.0, 70.0, 5, -0.1, 0.1, 3), (0.0, 160.0, 101, -0.2, 0.2, 21)], vec![(0.0, 100.0, 101, -0.2, 0.2, 41), (10.0, 70.0, 5, -0.1, 0.1, 3), (0.0, 160.0, 101, -0.2, 0.2, 21), (5.0, 85.0, 9, -0.15, 0.05, 6), (20.0, 21.0, 2, 0.0, 0.01, 2), (0.0, 0.7, 8, -0.3, 0.3, 7), (1.0, 2.0, 11, -0.1, 0.2, 4)]);
     for (slo, shi, sb, glo, ghi, gb) in grids {
         st.states += 1;
         st.nontrivial += 1;
@@ -246,8 +247,8 @@ fn check_model(name: &str, path: &std::path::Path, eru: EnergyRateUnit, tier: Ti
         let under = |s: f64, g: f64| underlying.predict((Speed::new(s), su), (Grade::new(g), gu)).map(|r| r.0.as_f64()).unwrap_or(f64::NAN);
         let interp = |s: f64, g: f64| guarded(|| model.predict((Speed::new(s), su), (Grade::new(g), gu)).map(|r| r.0.as_f64()).map_err(|e| e.to_string()));
         // corner values of the underlying model on the grid (computed lazily per cell)
-        let cells_s: Vec<usize> = if sb > 12 && tier == Tier::Quick { vec![0, 1, 17, 50, sb - 3, sb - 2] } else { (0..sb - 1).collect() };
-        let cells_g: Vec<usize> = if gb > 12 && tier == Tier::Quick { vec![0, 1, 20, gb - 3, gb - 2] } else { (0..gb - 1).collect() };
+        let cells_s: Vec<usize> = if sb > 12 && tier == Tier::Quick { vec![0, 1, sb / 6, sb / 2, sb - 3, sb - 2] } else { (0..sb - 1).collect() };
+        let cells_g: Vec<usize> = if gb > 12 && tier == Tier::Quick { vec![0, 1, gb / 2, gb - 3, gb - 2] } else { (0..gb - 1).collect() };
         let grid_desc = json!([slo, shi, sb, glo, ghi, gb]);
         for ci in cells_s.iter() {
             for cj in cells_g.iter() {
@@ -341,8 +342,8 @@ fn check_model(name: &str, path: &std::path::Path, eru: EnergyRateUnit, tier: Ti
             }
         }
         // every speed / grade input unit: cell centres expressed in another unit stay within the surrounding corner values
-        let centre_s: Vec<usize> = if sb > 12 { vec![3, 40, sb - 4] } else { (0..sb - 1).collect() };
-        let centre_g: Vec<usize> = if gb > 12 { vec![2, 25, gb - 4] } else { (0..gb - 1).collect() };
+        let centre_s: Vec<usize> = if sb > 12 { vec![3, sb / 2 - 3, sb - 4] } else { (0..sb - 1).collect() };
+        let centre_g: Vec<usize> = if gb > 12 { vec![2, gb / 2 + 2, gb - 4] } else { (0..gb - 1).collect() };
         for isu in crate::refmodel::units::SPEED_UNITS.iter() {
             for igu in crate::refmodel::units::GRADE_UNITS.iter() {
                 for ci in centre_s.iter() {
